@@ -1297,6 +1297,30 @@ pub fn check(scn: &ClientScn, log: &[Ev], horizon_reached: bool, sim: &Sim) -> V
             }
         }
     }
+    // once the dispatch has ended (for whatever reason) later calls fail fast: they resolve
+    // within the idle window in which they were made, with an error
+    if let Some(dend) = dispatch_end {
+        for (i, c) in calls.iter().enumerate() {
+            let Some((iseq, _)) = c.invoke else { continue };
+            if iseq < dend || c.abandon.is_some() || c.skipped {
+                continue;
+            }
+            let next_idle = idles.iter().find(|x| x.0 > iseq).map(|x| x.0);
+            match (&c.resolve, next_idle) {
+                (Some((rseq, _, out)), Some(ni)) => {
+                    if *rseq > ni {
+                        v.push(viol("C09", "not-fail-fast", &[], format!("call {i} made after the dispatch ended (seq {dend}) resolved only at seq {rseq}, after idle seq {ni}")));
+                    }
+                    if matches!(out, Outcome::Ok(_) | Outcome::Server(..)) {
+                        v.push(viol("C09", "phantom-ok", &["after-end"], format!("call {i} made after the dispatch ended resolved {out:?}")));
+                    }
+                }
+                (None, Some(ni)) => v.push(viol("C09", "not-fail-fast", &["pending"], format!("call {i} made after the dispatch ended (seq {dend}) is still pending at idle seq {ni}"))),
+                _ => {}
+            }
+        }
+        sim.count("probe.call_after_dispatch_ended");
+    }
     // a failed start_send of a request fails only that call
     for (i, c) in calls.iter().enumerate() {
         if let (Some((_, _, false)), Some((_, _, out))) = (c.r_send, &c.resolve) {
